@@ -41,12 +41,20 @@ func genSepValue(r *rand.Rand, tag int) []byte {
 	case 7:
 		return []byte("0123456789abcdef:0123456789abcdef:")
 	default:
+		if r.Intn(12) == 0 { // a value of several KiB (encodings larger than any small scratch buffer)
+			b := make([]byte, 4200+r.Intn(5000))
+			r.Read(b)
+			return b
+		}
 		return lab.GenValue(r, tag)
 	}
 }
 
 type c14sweep struct {
 	c *fw.Ctx
+	// an encoding handed out by an earlier Encode call is kept as it was returned, next to a copy made at once: the
+	// result belongs to the caller, later Encode calls (of any node) must not change it
+	held, heldCopy []byte
 }
 
 func (s *c14sweep) node(where string, key []byte, enc []byte, n util.Node) bool {
@@ -76,9 +84,20 @@ func (s *c14sweep) node(where string, key []byte, enc []byte, n util.Node) bool 
 		c.Violate("", "%s: decode(encode(node)) hashes to %x, node is stored under %x (encoding %x)", where, h2, key, enc)
 		return false
 	}
-	if e2 := n2.Encode(); !bytes.Equal(e2, enc) {
+	e2 := n2.Encode()
+	if !bytes.Equal(e2, enc) {
 		c.Violate("", "%s: encode(decode(enc)) = %x differs from enc = %x", where, e2, enc)
 		return false
+	}
+	if s.held != nil && !bytes.Equal(s.held, s.heldCopy) {
+		c.Violate("", "%s: an encoding returned by an earlier Encode call (%d bytes) changed after later Encode calls", where, len(s.heldCopy))
+		return false
+	}
+	if len(e2) > 4000 || s.held == nil || c.Rng.Intn(8) == 0 {
+		s.held, s.heldCopy = e2, append([]byte(nil), e2...)
+		if len(e2) > 4096 {
+			c.Count("big_encodings_held_across_later_encodes", 1)
+		}
 	}
 	// any origin/version: advance the version mark only (as a prune mark pass does) and round-trip again:
 	// the hash depends on the origin only, and both fields must come back where they were put
@@ -390,7 +409,7 @@ func init() {
 			return 9600
 		},
 		Run: runC14,
-		Floors: map[string]int64{"nodes_swept": 300000, "root_recomputations": 20000, "kind:leaf-emptypath": 1000, "kind:leaf-path": 1000, "kind:branch-value": 1000, "kind:branch-novalue": 1000, "kind:ext-len1": 1000, "kind:ext-long": 1000,
+		Floors: map[string]int64{"nodes_swept": 300000, "big_encodings_held_across_later_encodes": 1000, "root_recomputations": 20000, "kind:leaf-emptypath": 1000, "kind:leaf-path": 1000, "kind:branch-value": 1000, "kind:branch-novalue": 1000, "kind:ext-len1": 1000, "kind:ext-long": 1000,
 			"kind:value-with-separator": 10000, "kind:ext-childhash-contains-separator-byte": 100, "distinct:branch_child_counts": 3,
 			"histories:memory": 100, "histories:persistent": 100, "histories:rounds-on-persistent": 1000, "fat_rounds": 100, "version_mark_round_trips": 50000, "validator_agreements": 3500, "cases_with_debug_switch_on": 1000, "histories:long-lived-trie": 600, "miskeyed_donor_syncs": 3000},
 		Assumptions: []string{"node kinds are those the operation histories produce; the hash format is the one read from the pinned code (see C02)"},
